@@ -32,6 +32,34 @@ def key_of(size, x, y, z):
     return (k(x), k(y), k(z))
 
 
+# ---- use sites: which atom is a returned block of neighbours used for -------------------
+# A get_near_cells result is handed back as a NearList that remembers the atom it was queried
+# for.  Every use site iterates the block with the subject atom in a local variable; when an
+# iteration starts, the monitor compares "what the block contains" with a brute-force search
+# around the SUBJECT within the cutoff that site applies (never more than the cell size).
+USE_SITES = {
+    # code name of the function that iterates the block: (local variable holding the subject, cutoff or None = cell size)
+    "optimize_hydrogens": ("atom", 4.3),
+    "find_nearby_atoms": ("atom", "bump"),
+    "get_bump_score_atom": ("atom", "bump"),
+    "get_closest_atom": ("atom", None),
+    "finalize": (("bondedatom", "atom"), None),  # Carboxylic.finalize / Alcoholic.finalize
+}
+
+
+class NearList(list):
+    __slots__ = ("q_atom", "q_cells", "q_tick", "q_mon")
+
+    def __iter__(self):
+        m = self.q_mon
+        if m is not None and m.active:
+            try:
+                m.use(self, sys._getframe(1))
+            except Exception as e:  # the monitor must never change the run
+                m.use_errors.append(f"{type(e).__name__}: {e}")
+        return list.__iter__(self)
+
+
 class CellMonitor:
     def __init__(self, max_bruteforce=None):
         self.queries = 0
@@ -59,6 +87,16 @@ class CellMonitor:
         #   A add   B add of a registered atom   R remove   W write (unregistered atom)
         #   X write on a REGISTERED atom   Q query   N new Atom object   D remove_atom (unregistered)
         #   G remove_atom of a REGISTERED atom   S assign_cells
+        # use-site check
+        self.active = False
+        self.tick = 0  # bumped by every add/remove/coordinate write/atom creation or removal
+        self.uses = 0
+        self.uses_checked = 0  # uses that needed a fresh brute-force search
+        self.uses_other_atom = 0  # block queried for one atom, used for another
+        self.use_findings = []
+        self.use_unknown = {}
+        self.use_errors = []
+        self._use_seen = set()
         self.events = []
         self.events_limit = 400000
         self.record_events = True
@@ -66,6 +104,63 @@ class CellMonitor:
     def ev(self, letter, atom, site=None):
         if self.record_events and len(self.events) < self.events_limit:
             self.events.append((letter, self.aid(atom) if atom is not None else -1, site if site is not None else call_site(skip_prims=True, depth=3)))
+
+    def use(self, block, frame):
+        """A block of neighbours starts being iterated in `frame`."""
+        self.uses += 1
+        code = frame.f_code
+        spec = USE_SITES.get(code.co_name) if "/pdb2pqr/" in code.co_filename else None
+        fn = code.co_filename
+        site = f"{fn.split('/pdb2pqr/')[-1][:-3].replace('/', '.').replace('hydrogens.__init__', 'hydrogens')}.{getattr(code, 'co_qualname', code.co_name)}" if "/pdb2pqr/" in fn else code.co_name
+        if spec is None:
+            if "/pdb2pqr/" in fn and code.co_name != "get_near_cells":
+                self.use_unknown[site] = self.use_unknown.get(site, 0) + 1
+            return
+        var, cutoff = spec
+        subject = None
+        for v in (var if isinstance(var, tuple) else (var,)):
+            if v in frame.f_locals:
+                subject = frame.f_locals[v]
+                break
+        if subject is None:
+            self.use_unknown[site + ":no-subject"] = self.use_unknown.get(site + ":no-subject", 0) + 1
+            return
+        same = subject is block.q_atom
+        if not same:
+            self.uses_other_atom += 1
+        if same and block.q_tick == self.tick:
+            return  # nothing changed since the query, which was itself compared with brute force
+        cells = block.q_cells
+        bio = self.biomol.get(id(cells))
+        if bio is None or getattr(subject, "cell", None) is None:
+            return
+        size = float(cells.cellsize)
+        if cutoff == "bump":
+            from pdb2pqr.config import BUMP_HEAVY_SIZE
+
+            cutoff = 2.0 * BUMP_HEAVY_SIZE
+        cut = min(size, cutoff) if cutoff is not None else size
+        self.uses_checked += 1
+        have = {id(b) for b in block}
+        sx, sy, sz = subject.x, subject.y, subject.z
+        c2 = cut * cut
+        for residue in bio.residues:
+            for b in residue.atoms:
+                if b is subject or id(b) in have:
+                    continue
+                dx, dy, dz = b.x - sx, b.y - sy, b.z - sz
+                d2 = dx * dx + dy * dy + dz * dz
+                if d2 < c2:
+                    key = (site, same)
+                    if key in self._use_seen and len(self.use_findings) >= 3:
+                        continue
+                    self._use_seen.add(key)
+                    self.use_findings.append({
+                        "site": site, "condition": "partner-within-cutoff-not-examined",
+                        "atom": _name(subject), "atom_xyz": [sx, sy, sz], "partner": _name(b), "partner_xyz": [b.x, b.y, b.z],
+                        "distance": d2 ** 0.5, "cutoff": cut, "block_queried_for": _name(block.q_atom),
+                        "why": "block was queried for another atom" if not same else "structure changed between query and use",
+                    })
 
     def aid(self, atom):
         i = self.atom_ids.get(id(atom))
@@ -98,6 +193,7 @@ def monitor(mon: CellMonitor):
     o_atom_init = pstruct.Atom.__init__
 
     def _w_atom_init(self, *a, **k):
+        mon.tick += 1
         r = o_atom_init(self, *a, **k)
         if mon.ops["assign"]:
             mon.ev("N", self)
@@ -111,6 +207,7 @@ def monitor(mon: CellMonitor):
         return o_assign(self, biomolecule)
 
     def _w_add(self, atom):
+        mon.tick += 1
         mon.ops["add"] += 1
         if getattr(atom, "cell", None) is not None:
             mon.ops["double_add"] += 1
@@ -123,6 +220,7 @@ def monitor(mon: CellMonitor):
         return r
 
     def _w_remove(self, atom):
+        mon.tick += 1
         mon.ops["remove"] += 1
         if getattr(atom, "cell", None) is not None:
             mon.last_unreg[id(atom)] = call_site()
@@ -131,7 +229,8 @@ def monitor(mon: CellMonitor):
         return o_remove(self, atom)
 
     def _w_query(self, atom):
-        res = o_query(self, atom)
+        res = NearList(o_query(self, atom))
+        res.q_atom, res.q_cells, res.q_tick, res.q_mon = atom, self, mon.tick, mon
         mon.ops["query"] += 1
         mon.queries += 1
         bio = mon.biomol.get(id(self))
@@ -178,6 +277,8 @@ def monitor(mon: CellMonitor):
         return res
 
     def _w_setattr(self, name, value):
+        if name in ("x", "y", "z"):
+            mon.tick += 1
         if name in ("x", "y", "z") and self.__dict__.get("cell") is not None and self.__dict__.get(name) != value:
             mon.ops["write_registered"] += 1
             mon.last_write[id(self)] = call_site()
@@ -195,6 +296,7 @@ def monitor(mon: CellMonitor):
             object.__setattr__(self, name, value)
 
     def _w_remove_atom(self, atomname):
+        mon.tick += 1
         atom = self.map.get(atomname)
         if atom is not None and getattr(atom, "cell", None) is not None:
             mon.ops["removed_registered"] += 1
@@ -211,9 +313,11 @@ def monitor(mon: CellMonitor):
     pstruct.Atom.__setattr__ = _w_setattr
     presidue.Residue.remove_atom = _w_remove_atom
     pstruct.Atom.__init__ = _w_atom_init
+    mon.active = True
     try:
         yield mon
     finally:
+        mon.active = False
         C.assign_cells, C.add_cell, C.remove_cell, C.get_near_cells = o_assign, o_add, o_remove, o_query
         if o_setattr:
             pstruct.Atom.__setattr__ = o_setattr
